@@ -65,34 +65,41 @@ def check_trivial_acceptances(ctx, r):
     need(get_nodes, "PyTree.__instancecheck__ no longer reads the context")
     cls_, obj = f.params[0], f.params[1]
 
-    def accepting_test(pred):
-        out = []
-        for n in g.live_nodes():
-            if n.kind == "test" and pred(norm(n.ast)):
-                for k, s in n.succ:
-                    if k in ("t", "f") and s.kind == "return" and isinstance(s.ast.value, ast.Constant) and s.ast.value.value is True:
-                        out.append((n, k))
-        return out
+    # walked on the CFG for the two input classes, however the guards are spelled (two ifs, one `or`,
+    # flipped tests): the walk must end in `return True` without ever reaching the read of the context
+    from ..absim import eval_bool, simulate
 
-    bare = accepting_test(lambda t: "hasattr" in t and "leaftype" in t)
-    none = accepting_test(lambda t: t in (f"{obj} is None", f"{obj} is not None", f"None is {obj}"))
-    for label, hits, want_side in (("bare `PyTree` (no leaf type) accepts everything", bare, None), ("a top-level None is accepted", none, None)):
-        if not hits:
-            ctx.bad("C08.1", f, f.node, f"{label}: the accepting early return is gone", construct=f"early accept: {label}")
-            continue
-        n, side = hits[0]
-        t = norm(n.ast)
-        # polarity: the accepting side must be the one on which the condition holds
-        if "hasattr" in t:
-            ok = (side == "t") == t.startswith("not ")
+    get_ids = {n.id for n in get_nodes}
+
+    def stop(n):
+        return n.id in get_ids or n.kind in ("return", "raise", "exit", "exit_e", "exit_b", "falloff")
+
+    def mk_atom(bare, none):
+        def atom(e):
+            t = norm(e)
+            if isinstance(e, ast.Call) and norm(e.func) == "hasattr" and len(e.args) == 2 and norm(e.args[0]) == cls_ and isinstance(e.args[1], ast.Constant) and e.args[1].value == "leaftype":
+                return None if bare is None else (not bare)
+            if isinstance(e, ast.Compare) and len(e.ops) == 1 and isinstance(e.ops[0], (ast.Is, ast.IsNot)):
+                l, r_ = norm(e.left), norm(e.comparators[0])
+                if {l, r_} == {obj, "None"}:
+                    if none is None:
+                        return None
+                    return none if isinstance(e.ops[0], ast.Is) else (not none)
+            return None
+        return atom
+
+    for label, bare, none in (("bare `PyTree` (no leaf type) accepts everything", True, None), ("a top-level None is accepted", False, True)):
+        outs = simulate(g, g.entry, stop, lambda n, a_=mk_atom(bare, none): eval_bool(n.ast, a_))
+        need(outs, "C08.1: PyTree.__instancecheck__ has no path at all")
+        reads = [o for o in outs if o.end.id in get_ids]
+        rejects = [o for o in outs if o.end.id not in get_ids and not (o.end.kind == "return" and isinstance(o.end.ast.value, ast.Constant) and o.end.ast.value.value is True)]
+        if reads:
+            ctx.bad("C08.1", f, f.node, f"{label}: the accepting early return is gone (the check goes on to read the context and flatten the value)", construct=f"early accept: {label}")
+        elif rejects:
+            o = rejects[0]
+            ctx.bad("C08.1", f, o.end.ast if o.end.ast is not None else f.node, f"{label}: this input ends in `{o.end.text()}` instead of `return True`")
         else:
-            ok = (side == "t") == (" is None" in t or t.startswith("None is"))
-        if not ok:
-            ctx.bad("C08.1", f, n.ast, f"{label}: the early `return True` sits on the wrong side of `{t}`")
-        elif not all(n.id in dom[gn.id] for gn in get_nodes):
-            ctx.bad("C08.1", f, n.ast, f"{label}: the test does not precede the reading of the context on every path")
-        else:
-            ctx.ok("C08.1", f.qualname, f"{label}: `{t}` -> return True, before any binding is read")
+            ctx.ok("C08.1", f.qualname, f"{label}: every path for this input returns True before any binding is read")
 
 
 # ------------------------------------------------------------------------ C08.2
